@@ -199,12 +199,12 @@ func c14Sig(kind string, e c14Entry) string {
 
 func TestVerifC14Registrations(t *testing.T) {
 	L := ev.Begin("C14", "c14-registrations", "exploration",
-		"catalog entries: name {svc, svc-1, 'sv c'} x address {v4, v6, empty->node address} x port {0,80,65535} x urlprefix part {/x, foo.com/x, FOO.com/, :1234, foo.com (no slash), ${DC}.foo.com/, /[} x every <=2-subset of 18 option strings (strip, proto=https/tcp/grpc, weight=0.2/abc/Inf/empty/-1, redirect with and without url, host=dst, allow, a=\"b\", tlsskipverify, bare flag) x extra tags {none, v1, two tags, quoted, backslash, non-ASCII, spaced, newline, quote+newline+a second command}; each next to a second well-formed service. The generated commands go through route.NewTable as makeConfig would emit them. oracle: (a) the whole text is accepted and the well-formed neighbour is present; (b) an expressible entry yields the target that denotes it (service, host/path, destination, weight, tags, opts), an inexpressible one is absent. non-trivial = entry with options or extra tags")
+		"catalog entries: name {svc, svc-1, 'sv c'} x address {v4, v6, empty->node address} x port {0,80,65535} x urlprefix part {/x, foo.com/x, FOO.com/, :1234, foo.com (no slash), ${DC}.foo.com/, /[} x every <=2-subset of 21 option strings (strip, proto=https/tcp/grpc and values that select no scheme (tcp+sni, http, bare proto), weight=0.2/abc/Inf/empty/-1, redirect with and without url, host=dst, allow, a=\"b\", tlsskipverify, bare flag) x extra tags {none, v1, two tags, quoted, backslash, non-ASCII, spaced, newline, quote+newline+a second command}; each next to a second well-formed service. The generated commands go through route.NewTable as makeConfig would emit them. oracle: (a) the whole text is accepted and the well-formed neighbour is present; (b) an expressible entry yields the target that denotes it (service, host/path, destination, weight, tags, opts), an inexpressible one is absent. non-trivial = entry with options or extra tags")
 	names := []string{"svc", "svc-1", "sv c"}
 	addrs := []string{"10.1.2.3", "2001:db8::7", ""}
 	ports := []int{0, 80, 65535}
 	prefixes := []string{"/x", "foo.com/x", "FOO.com/", ":1234", "foo.com", "${DC}.foo.com/", "/["}
-	optPool := []string{"strip=/x", "proto=https", "proto=tcp", "proto=grpc", "weight=0.2", "weight=abc", "weight=Inf", "weight=", "weight=-1", "redirect=301,https://t.example/", "redirect=301", "redirect=302,https://t.example$path", "host=be-$DC.internal", "host=dst", "allow=ip:10.0.0.0/8", "a=\"b\"", "tlsskipverify=true", "flag"}
+	optPool := []string{"strip=/x", "proto=https", "proto=tcp", "proto=grpc", "weight=0.2", "weight=abc", "weight=Inf", "weight=", "weight=-1", "redirect=301,https://t.example/", "redirect=301", "redirect=302,https://t.example$path", "host=be-$DC.internal", "host=dst", "allow=ip:10.0.0.0/8", "a=\"b\"", "tlsskipverify=true", "flag", "proto=tcp+sni", "proto=http", "proto"}
 	var optSets [][]string
 	optSets = append(optSets, nil)
 	for i := range optPool {
@@ -332,7 +332,7 @@ func TestVerifC14RegMulti(t *testing.T) {
 	L := ev.Begin("C14", "c14-multi", "exploration",
 		"(a) one registration carrying two routing tags: every ordered pair of prefixes from {/x, foo.com/y, :1234} x every ordered pair of option sets from {none} + 18 single options; (b) two registrations of different services sharing one prefix from the same list x every ordered pair of option sets; through the real routecmd.build for each and route.NewTable on the joined text. oracle: the joined text is accepted; every expressible tag / registration is present with exactly its own destination, weight and options (nothing inherited from its neighbour), every inexpressible one is absent. non-trivial = pairs where the two option sets differ")
 	prefixes := []string{"/x", "foo.com/y", ":1234"}
-	optPool := []string{"", "strip=/x", "proto=https", "proto=tcp", "proto=grpc", "weight=0.2", "weight=abc", "weight=Inf", "weight=0.05", "weight=-1", "redirect=301,https://t.example/", "host=be-$DC.internal", "host=dst", "allow=ip:10.0.0.0/8", "a=\"b\"", "tlsskipverify=true", "flag", "weight=5%", "register=alias"}
+	optPool := []string{"", "strip=/x", "proto=https", "proto=tcp", "proto=grpc", "weight=0.2", "weight=abc", "weight=Inf", "weight=0.05", "weight=-1", "redirect=301,https://t.example/", "host=be-$DC.internal", "host=dst", "allow=ip:10.0.0.0/8", "a=\"b\"", "tlsskipverify=true", "flag", "weight=5%", "register=alias", "proto=tcp+sni", "proto=h2c"}
 	env := map[string]string{"DC": "dc1"}
 	type job struct {
 		kind   string
